@@ -139,22 +139,22 @@ ESYM = {"C01", "C02", "C03", "C07", "C11", "C12", "C13", "C14", "C15", "C16"}
 # clauses added after the first full pass (see DESIGN.md section 3)
 EXTRA = {
     "C01": "Also: error()/trace() are total (R8); every operand of a body is generated unconditionally; the negation and the failure form of if/then/else are compared as truth tables over (if, then, else) with the expected implication tables (R2/R4); every rule kind with a Negate method, not only the atomic ones, copies everything but the flag; the parser hands each constructor the polarity it was given (R9). The IRIs of the formula are resolved from this profile's prefixes only (R10). The fresh-name counter is never reset (R11); no variable name is also a template-local name (R12). The conversion the set constraints compare values through does not round numbers (R13; one known finding: format_int truncates). Every constraint keyword of a property adds its conjunct independently of the others (R14); every class of a node's @type is indexed (R15). The operator tables are read by evaluating the functions per constant (a switch, a keyed table, a map with a fallback alike).",
-    "C02": "Also: one clause per alternative in the aggregations (P5); path rules are named by the fresh-name generator whose counter is never reset in reach of the entry points (P8); fresh expander context (P9). Every traversal result is kept wherever results are collected (P5); the index holds every node because the input is flattened unconditionally (P10). The subject searches exclude no candidate by a second test (P6); a forward and an inverse step yield nodes in the same form (P11; one known finding). A compact IRI expands to its namespace followed by its local name and nothing else (P12); the grammar actions for / and | keep every operand (P13). The helper that merges the default prefixes copies entries, it never adopts the map (P9).",
+    "C02": "Also: one clause per alternative in the aggregations (P5); path rules are named by the fresh-name generator whose counter is never reset in reach of the entry points (P8); fresh expander context (P9). Every traversal result is kept wherever results are collected (P5); the index holds every node because the input is flattened unconditionally (P10). The subject searches exclude no candidate by a second test (P6); a forward and an inverse step yield nodes in the same form (P11; one known finding). A compact IRI expands to its namespace followed by its local name and nothing else (P12); the grammar actions for / and | keep every operand (P13). The helper that merges the default prefixes copies entries, it never adopts the map (P9). No parse result is kept across calls (P14). Nodes the data only refers to are entered in the node index, so a path that passes through one keeps it (P15).",
     "C03": "Also: no report, header field or time survives a call in a package-level variable (L7). The public entry points hand the caller's configurations on unchanged (L8). Every rule of every level reaches the generator (L9); YAML aliases are rejected (L10). The profile name in the header is Profile.Name quoted by the escaping helper and by nothing else (L5).",
     "C04": "Also: the JSON decoder reads the entry point's data text unchanged (E5), the decode dominates the normalisation (E6), explicit panics on the data path never carry nil (E7). An error that is never compared with nil must be returned on every later return (E1); the CLI hands the library the data file as read (E8). No validation outcome survives a call (E9); a failed read ends the CLI with a non-zero status (E10).",
-    "C05": "Also: the embedded Rego never prints a data value in its written form (N4; one known finding: as_string of typed literals); the data text is only handed to the decoder, never inspected (N5). The CLI hands the library the data file's bytes as read (N6); only uniqueValues reads values as an array (N7). Placeholder values must not depend on value order or spelling (N8; one known finding); no template reads a value at a computed position (N9). Every class of a node's @type is indexed whatever the other classes and their order (N10).",
+    "C05": "Also: the embedded Rego never prints a data value in its written form (N4; one known finding: as_string of typed literals); the data text is only handed to the decoder, never inspected (N5). The CLI hands the library the data file's bytes as read (N6); only uniqueValues reads values as an array (N7). Placeholder values must not depend on value order or spelling (N8; one known finding); no template reads a value at a computed position (N9). Every class of a node's @type is indexed whatever the other classes and their order (N10). No template prints a value with json.marshal (N4 for templates); no generated code asks whether a property key is present (N11).",
     "C06": "Also: no package-level variable is written in reach of the entry points, synchronised or not (D4). No package-level variable holds a mutable object of a dependency (D5); the CLI truncates the output file (D6). No package-level state is written in reach of validation, scratch buffers included (D7). No deadline or timer in reach of the entry points (D2); no compilation writes into the shared default prefix table (D8).",
-    "C07": "Also: constraint templates declare no fixed-name local at rule-body scope (H7); no profile text reaches code position as written (H8); the aggregation emitters, evaluated symbolically on 1..3 (thorough: 4) alternatives, parse with OPA's parser (H9); variable names are drawn from the generator's own table indexed by its own counter (H10). and/or are only built from non-empty lists (H11); every rule of every level is generated (H12); the path parser runs without an expression budget (H13). The parser runtime has no expression budget or other limit of its own (H14, H16); a type switch of the translator that panics otherwise handles every type the model function returns (H15). H6 is decided on words: every prefix / name of one or two characters the grammar admits matches the expander's pattern.",
-    "C08": "Also: no compilation outcome survives a call in a package-level variable (B5). The error of the compilation stage is tested and propagated by every function between the compiler and the entry points (B6). Every rego.New keeps print() calls visible to the unsafe built-in check (B7). Embedded Rego is pasted whole: only template variables are substituted and lines split, all kept (B8). After a successful compilation the with-modifiers of print calls, which the compiler drops before its check, are searched in the module as written (B9).",
+    "C07": "Also: constraint templates declare no fixed-name local at rule-body scope (H7); no profile text reaches code position as written (H8); the aggregation emitters, evaluated symbolically on 1..3 (thorough: 4) alternatives, parse with OPA's parser (H9); variable names are drawn from the generator's own table indexed by its own counter (H10). and/or are only built from non-empty lists (H11); every rule of every level is generated (H12); the path parser runs without an expression budget (H13). The parser runtime has no expression budget or other limit of its own (H14, H16); a type switch of the translator that panics otherwise handles every type the model function returns (H15). H6 is decided on words: every prefix / name of one or two characters the grammar admits matches the expander's pattern. Whether a profile compiles depends on that profile alone: no compilation writes into the shared default prefix table (H17).",
+    "C08": "Also: no compilation outcome survives a call in a package-level variable (B5). The error of the compilation stage is tested and propagated by every function between the compiler and the entry points (B6). Every rego.New keeps print() calls visible to the unsafe built-in check (B7). Embedded Rego is pasted whole: only template variables are substituted and lines split, all kept (B8). After a successful compilation the with-modifiers of print calls, which the compiler drops before its check, are searched in the module as written (B9). B9 also requires that the search starts from the whole parsed module and reads the with-modifiers of every expression (with-targets, fix 5022ef9).",
     "C09": "Also: locks taken while validating are released by defer (S3). No map iteration order reaches the report (S4).",
-    "C10": "Also: no call leaves state behind in a package-level variable (G4); no package-level channel (G5); no package-level object of a dependency (G6); no process-wide registry of a dependency is written (G7).",
-    "C12": "Also: the JSON encoder's error is never dropped (J6), Negate keeps the component name and every constructor names the component it builds (J7), the report stays a tree (J8), the @ids index holds exactly the input's nodes (J9). Where the generator discards the error of a text-valued function the callee hands its argument back on error returns (J10); a YAML node's text is read only under a scalar test (J11). The message text is never empty (J12); and/or rules have operands (J13). A report file is the whole content of its file (J14); every enumeration value has a non-empty name (J15); a validation is parsed under the key it was found under (J16). The CLI never prints the report as a format string (J17). The dialect-instance envelope is decided on the values the function returns (J5).",
-    "C13": "Also: one sprintf argument per recorded variable and one recorded variable per occurrence (Q3); the lossy printed form of a rule never decides equality (Q5). Names are stored as the YAML accessor returned them, traced through SSA to every call site (Q6); Q3 is decided on the values the message parser and formatter build. The CLI never uses the report as a format (Q7); placeholders resolve with this profile's prefixes only (Q8). The profile name reaches the header unprocessed (Q9); the default message replaces a missing or empty message only (Q10).",
-    "C14": "Also: no panic is swallowed while the lexical index is built (K5); the trace node follows the $traceNode placeholder exactly (K6). The file lookup returns the entry of exactly the id asked about or the default location (K2, on values). The report builder does not remove or rewrite location nodes (K7). JSON is decoded into untyped values only with UseNumber: no line or column is routed through float64 (K8).",
-    "C15": "Also: the YAML decoder is handed the entry point's profile text unchanged (O5); operand lists are only permuted, never filtered (O6); prefix names are not validated more strictly than the grammar (O7). The placeholder pattern finds every prefix name the grammar admits (O7); no loop of the profile parser that fills a list stops early (O8); scalar test before a node's text is read (O9). YAML aliases are rejected (O10). Constructors store the operand list they are given and no operand is conditional, on values (O6); no in-place extension of shared operand lists (O11). Every prefix and name the grammar admits is accepted by the IRI expander (O12).",
-    "C16": "Also: the generated parser is handed the caller's string unchanged (X7); the tree builder keeps every operand (X8); no parse result is cached across calls (X9). The generated interpreter gives back consumed input when a sequence, literal or predicate fails (X10). RuneError is only tested together with the decoder's width (X11); no expression budget by default (X12). The runtime has no other limit: no explicit panic under an ordering comparison of a depth, length or count (X13).",
+    "C10": "Also: no call leaves state behind in a package-level variable (G4); no package-level channel (G5); no package-level object of a dependency (G6); no process-wide registry of a dependency is written (G7). An object put into a process-wide sync.Pool counts as state left behind (G4).",
+    "C12": "Also: the JSON encoder's error is never dropped (J6), Negate keeps the component name and every constructor names the component it builds (J7), the report stays a tree (J8), the @ids index holds exactly the input's nodes (J9). Where the generator discards the error of a text-valued function the callee hands its argument back on error returns (J10); a YAML node's text is read only under a scalar test (J11). The message text is never empty (J12); and/or rules have operands (J13). A report file is the whole content of its file (J14); every enumeration value has a non-empty name (J15); a validation is parsed under the key it was found under (J16). The CLI never prints the report as a format string (J17). The dialect-instance envelope is decided on the values the function returns (J5). The message parser deletes nothing from the text (J18).",
+    "C13": "Also: one sprintf argument per recorded variable and one recorded variable per occurrence (Q3); the lossy printed form of a rule never decides equality (Q5). Names are stored as the YAML accessor returned them, traced through SSA to every call site (Q6); Q3 is decided on the values the message parser and formatter build. The CLI never uses the report as a format (Q7); placeholders resolve with this profile's prefixes only (Q8). The profile name reaches the header unprocessed (Q9); the default message replaces a missing or empty message only (Q10). The text handed to the message parser is what the YAML accessor returned or the default (Q11).",
+    "C14": "Also: no panic is swallowed while the lexical index is built (K5); the trace node follows the $traceNode placeholder exactly (K6). The file lookup returns the entry of exactly the id asked about or the default location (K2, on values). The report builder does not remove or rewrite location nodes (K7). JSON is decoded into untyped values only with UseNumber: no line or column is routed through float64 (K8). No json.Number is converted to a machine number (K9); no text of the data is re-serialised through net/url (K10).",
+    "C15": "Also: the YAML decoder is handed the entry point's profile text unchanged (O5); operand lists are only permuted, never filtered (O6); prefix names are not validated more strictly than the grammar (O7). The placeholder pattern finds every prefix name the grammar admits (O7); no loop of the profile parser that fills a list stops early (O8); scalar test before a node's text is read (O9). YAML aliases are rejected (O10). Constructors store the operand list they are given and no operand is conditional, on values (O6); no in-place extension of shared operand lists (O11). Every prefix and name the grammar admits is accepted by the IRI expander (O12). A boolean flag accumulated over the operands is never overwritten with what the current operand says (O13).",
+    "C16": "Also: the generated parser is handed the caller's string unchanged (X7); the tree builder keeps every operand (X8); no parse result is cached across calls (X9). The generated interpreter gives back consumed input when a sequence, literal or predicate fails (X10). RuneError is only tested together with the decoder's width (X11); no expression budget by default (X12). The runtime has no other limit: no explicit panic under an ordering comparison of a depth, length or count (X13). The runtime folds the case of the input only for expressions marked ignoreCase (X14).",
     "C17": "Also: explicit panics never carry nil (Z7); a deferred close of the event channel is the only close (Z8); locks are released by defer. Negate of and/or returns a non-negated rule, so the two generators cannot recurse into each other for ever (Z9). No compilation writes into the shared default prefix table (Z10). No recursion whose calls hand on only unchanged parameters and looked-up texts (Z11).",
-    "C18": "Also: every text handed to the library is a file's content as read (W5); a path that writes to stderr ends with a non-zero exit (W7). Nothing in reach of the library writes to standard output or error (W8); accepted argument counts are exactly the counts with an output branch (W9). What the library returns does not depend on profiles compiled earlier (W10); no map iteration order reaches what the commands print (W11).",
+    "C18": "Also: every text handed to the library is a file's content as read (W5); a path that writes to stderr ends with a non-zero exit (W7). Nothing in reach of the library writes to standard output or error (W8); accepted argument counts are exactly the counts with an output branch (W9). What the library returns does not depend on profiles compiled earlier (W10); no map iteration order reaches what the commands print (W11). The public entry points hand the caller's texts to the validator unchanged (W12).",
 }
 
 
